@@ -9,6 +9,8 @@
       >= 11 branches) and is refuted.
  R03c producer kinds: the identification does not depend on the op kind of the producer
       (module / function / method).
+ R03g class coverage: the test by which export recognises combiner nodes accepts every
+      combiner class the library instantiates (an exact-type test skips subclasses).
  R03d erase-all-losers: every other input of the combiner is erased, the combiner node is
       erased, and dead-code elimination and unused-sub-module deletion run on every path.
 """
@@ -35,6 +37,33 @@ def _not_winner(a, v, el, winner) -> bool:
     if a in (('cmp', 'is', el, winner), ('cmp', '==', el, winner)) and v is False:
         return True
     return False
+
+
+def exact_type_predicate(repo, fn) -> bool:
+    """The predicate compares the concrete type (``type(x) in classes`` / ``==``) rather than
+    testing isinstance / issubclass."""
+    rets = [p.retval for p in returning(paths(repo, fn)) if p.retval is not None]
+    member = any(mentions(r, lambda y: y[0] == 'cmp' and y[1] in ('in', '==', 'is')) for r in rets)
+    inst = any(mentions(r, lambda y: is_call(y, 'builtins.isinstance', 'builtins.issubclass'))
+               for r in rets)
+    return member and not inst
+
+
+def instantiated_subclasses(repo, base):
+    """Strict subclasses of ``base`` that some function of the library constructs."""
+    import ast as _ast
+    subs = {c.qualname: c for c in repo.subclasses(base, strict=True)}
+    out = []
+    if not subs:
+        return out
+    for fn in repo.all_functions():
+        for n in _ast.walk(fn.node):
+            if isinstance(n, _ast.Call):
+                q = repo.resolve_expr_name(fn.module, n.func)
+                q = repo.canonical(q) if q else None
+                if q in subs and subs[q] not in out:
+                    out.append(subs[q])
+    return out
 
 
 def run(ctx):
@@ -81,6 +110,29 @@ def run(ctx):
                    f'{", which de-duplicates by module" if dedup else ""}: a choice block invoked '
                    f'twice in forward keeps its combiner and all branches at the second call site',
                    where(eg, e.node))
+            # R03g: the guard recognises every combiner class the library instantiates.  An
+            # exact-type test (is_layer: ``type(module) in layers``) skips instances of a
+            # subclass that every isinstance test elsewhere (tracer, cost, options) accepts
+            for a, v in guards:
+                if not (v and mentions(a, lambda y: y == ('global', comb.qualname))):
+                    continue
+                if is_call(a, 'is_layer'):
+                    named = {y[1] for y in subterms(a) if y[0] == 'global' and
+                             y[1] in repo.classes}
+                    exact = exact_type_predicate(repo, repo.fn('inspection.is_layer'))
+                    missed = [c.name for c in instantiated_subclasses(repo, comb)
+                              if c.qualname not in named] if exact else []
+                    ctx.ob('R03g', 'export_graph recognises every combiner class', not missed,
+                           'every instantiated combiner class is named in the exact-type test'
+                           if not missed else
+                           f'{missed} (a subclass of SuperNetCombiner that the library '
+                           f'instantiates) is not recognised by the exact-type test '
+                           f'{short(a, 80)}: the tracer, the cost and the option setters treat it '
+                           f'as a combiner (isinstance), export skips it and returns the whole '
+                           f'choice block with all its branches', where(eg, e.node))
+                elif is_call(a, 'builtins.isinstance', 'is_inherited_layer'):
+                    ctx.ob('R03g', 'export_graph recognises every combiner class', True,
+                           'subclass-aware test', where(eg, e.node), nontrivial=False)
             ctx.ob('R03d', 'export_graph replaces combiner nodes only', is_comb,
                    'guarded by is_layer(n, mod, (SuperNetCombiner,))' if is_comb else
                    'replace_all_uses_with is not guarded by the combiner test', where(eg, e.node),
